@@ -39,7 +39,7 @@ def dyadic_utpm(rng, D, P, shp, nz=False):
 
 def check_mutation(rep, algopy, rng, tier):
     per_op = 3 if tier == 'quick' else 30
-    for nm, op in sorted(ops.OPS.items()):
+    for nm, op in sorted(ops.ops_for(PID).items()):
         for _ in range(per_op):
             case = op.gen(rng, Dmax=5, Pmax=2)
             inputs = [numpy.array(x, dtype=float) for x in case['inputs']]
